@@ -950,7 +950,17 @@ class _GenerateRenderMethod:
             self.printer.writeline("%s()" % node.funcname)
         else:
             nameargs = node.get_argument_expressions(as_call=True)
-            nameargs += ["**pageargs"]
+            pagetag = self.compiler.pagetag
+            if (
+                not self.in_def
+                and pagetag is not None
+                and pagetag.body_decl.kwargs
+            ):
+                # the body collects the extra page arguments under a
+                # name of its own
+                nameargs += ["**%s" % pagetag.body_decl.kwargs.arg]
+            else:
+                nameargs += ["**pageargs"]
             self.printer.writeline(
                 "if 'parent' not in context._data or "
                 "not hasattr(context._data['parent'], '%s'):" % node.funcname
